@@ -139,6 +139,8 @@ FRAGMENTS = [
 
 #: fragments that make sense for any rank (run on 1-D, 2-D and 3-D inputs)
 FRAGMENTS_ANY = [
+    "r = 0\nfor v in t.flatten().tolist():\n    if v < -1.5:\n        r = -1\n        break\nelse:\n    r = 7",
+    "k = 0\nr = 0\nwhile k < 3:\n    k += 1\n    if t.flatten()[0] > 100:\n        break\nelse:\n    r = k + 10",
     "y = torch.zeros(3, 4)\ny.scatter_(1, torch.tensor([[0, 2], [1, 3], [3, 0]]), 1)\nr = y * t.flatten()[0]",
     "y = torch.zeros(2, 3)\ny.scatter_(0, torch.tensor([[1, 0, 1]]), torch.tensor([[5.0, 6.0, 7.0]]))\nr = y + t.flatten()[0]",
     "y = torch.zeros(2, 3)\ny[1][2] = t.flatten()[0]\ny[0][0] = 4\nr = y",
